@@ -67,6 +67,17 @@ Proof. exact de_ser_struct. Qed.
 Theorem c13_typed_round_trip : forall k, kind_ok k = true -> forall v, wt k v = true -> de_kind k v = Some v.
 Proof. exact de_kind_wt. Qed.
 
+(** canonical values exist where [wt] is stated as a fixed point of the normalisation: every
+    non-zero [u128] (maxMsgSize) as ciborium writes it, every 37-byte authenticator data with
+    valid flags *)
+Theorem c13_u128_canonical : forall z, (0 < z < TWO128)%Z -> wt KNzU128 (ser_u128 z) = true.
+Proof. exact u128_wt. Qed.
+
+Theorem c13_authdata_canonical : forall b,
+  length b = 37%nat -> N.land (nth 32 b 0) (255 - FLAG_BITS) = 0 -> N.land (nth 32 b 0) (64 + 128) = 0 ->
+  wt KAuthData (CBytes b) = true.
+Proof. exact authdata_canonical. Qed.
+
 (** (4) Unknown keys are ignored: an unsigned integer up to 255 that is no member's number, or a
     text (or byte) string that is no member's name, is an unknown key; an entry with an unknown key,
     whatever its value and wherever it stands, does not change the result. *)
@@ -84,6 +95,14 @@ Theorem c13_unknown_keys_ignored : forall fs es1 es2 k v,
   classify IntKeys (map fst fs) k = Some IdUnknown ->
   de_kind (KIStruct fs) (CMap (es1 ++ (k, v) :: es2)) = de_kind (KIStruct fs) (CMap (es1 ++ es2)).
 Proof. exact msg_insert_unknown. Qed.
+
+(** the same on the bytes *)
+Theorem c13_unknown_keys_ignored_bytes : forall fs es1 es2 k v,
+  classify IntKeys (map fst fs) k = Some IdUnknown ->
+  cbor_wf (CMap (es1 ++ (k, v) :: es2)) = true -> (depth (CMap (es1 ++ (k, v) :: es2)) < cbor_fuel)%nat ->
+  cbor_wf (CMap (es1 ++ es2)) = true -> (depth (CMap (es1 ++ es2)) < cbor_fuel)%nat ->
+  de_msg fs (cbor_encode (CMap (es1 ++ (k, v) :: es2))) = de_msg fs (cbor_encode (CMap (es1 ++ es2))).
+Proof. exact msg_bytes_insert_unknown. Qed.
 
 (** all unknown entries at once, for the visitor of any struct *)
 Theorem c13_unknown_entries_filtered : forall m fs es,
@@ -180,6 +199,9 @@ Print Assumptions c13_round_trip.
 Print Assumptions c13_message_round_trip.
 Print Assumptions c13_visitor_round_trip.
 Print Assumptions c13_typed_round_trip.
+Print Assumptions c13_u128_canonical.
+Print Assumptions c13_authdata_canonical.
+Print Assumptions c13_unknown_keys_ignored_bytes.
 Print Assumptions c13_unknown_int_key.
 Print Assumptions c13_unknown_text_key.
 Print Assumptions c13_unknown_keys_ignored.
